@@ -69,8 +69,21 @@ def r5_20(ctx):
     ctx.ok(key, FUNC, make.lineno, {"implicit_mutators": 0})
     return
   conds = []
+
+  def expand(t, depth=0):
+    """A guard that is a call of a module-local one-result predicate reads as
+    the predicate's returned expressions."""
+    if isinstance(t, ast.Call) and isinstance(t.func, ast.Name) \
+        and t.func.id in mod.functions and depth < 2:
+      out = [t]
+      for r in ast.walk(mod.functions[t.func.id]):
+        if isinstance(r, ast.Return) and r.value is not None:
+          out += expand(r.value, depth + 1)
+      return out
+    return [t]
   for c in implicit:
-    tests = [t for t, pol in flow.guards(mod.parent, mod.enclosing_stmt(c)) if pol]
+    tests = [x for t, pol in flow.guards(mod.parent, mod.enclosing_stmt(c)) if pol
+             for x in expand(t)]
     if not any(_mentions_self_name(t) for t in tests):
       raise AnalysisError("NameAndSig.from_function: implicit Mutator whose condition does not "
                           "name the parameter - rule premise changed")
